@@ -21,7 +21,7 @@ def run_inline(pid, cfg):
 
 def run_all(pid, plan, jobs, timeout):
     """returns (results, failures).  failures are inconclusive reasons."""
-    work = os.path.join(WORK, pid)
+    work = os.path.join(WORK, "%s-%d" % (pid, os.getpid()))
     shutil.rmtree(work, ignore_errors=True)
     os.makedirs(work, exist_ok=True)
     results, failures = [], []
